@@ -6,6 +6,7 @@
 package main
 
 import (
+	"encoding/json"
 	"flag"
 	"fmt"
 	"os"
@@ -15,6 +16,7 @@ import (
 
 	"verif/harness/hx"
 
+	simapp "github.com/KiraCore/sekai/app"
 	"github.com/KiraCore/sekai/x/evidence"
 	govtypes "github.com/KiraCore/sekai/x/gov/types"
 	"github.com/KiraCore/sekai/x/slashing"
@@ -63,7 +65,7 @@ func (c config) coq() string {
 // ---------------------------------------------------------------- world
 
 type world struct {
-	app interface{}
+	app *simapp.SekaiApp
 	sk  stakingkeeper.Keeper
 	slk slashingkeeper.Keeper
 
@@ -208,10 +210,16 @@ func obsCoq(res string, prev, cur snapshot, eb string) string {
 			dsi = append(dsi, hx.Pair(hx.Z(int64(k)), cur.SI[k].coq()))
 		}
 	}
-	if len(cur.Vals) < len(prev.Vals) || len(cur.SI) < len(prev.SI) {
-		panic("validator or signing info deleted: not representable")
+	var gone []int64
+	for _, k := range sortedKeysV(prev.Vals) {
+		if _, ok := cur.Vals[k]; !ok {
+			gone = append(gone, int64(k))
+		}
 	}
-	parts := []string{"mkObs", res, hx.List(dv), hx.List(dsi),
+	if len(cur.SI) < len(prev.SI) {
+		panic("signing info deleted: not representable")
+	}
+	parts := []string{"mkObs", res, zs(gone), hx.List(dv), hx.List(dsi),
 		hx.Opt(!eqPairs(prev.Cidx, cur.Cidx), pairs(cur.Cidx)),
 		hx.Opt(!eqPairs(prev.Pend, cur.Pend), pairs(cur.Pend)),
 		hx.Opt(!eqZs(prev.Rm, cur.Rm), zs(cur.Rm)),
@@ -244,6 +252,7 @@ type jop struct {
 	Evid    [][3]int64 `json:"evidence,omitempty"` // (cons key, height, time)
 	Vs      []int64    `json:"validators,omitempty"`
 	Dt      int64      `json:"dt,omitempty"`
+	To      int        `json:"to,omitempty"`
 	Res     string     `json:"res"`
 	Err     string     `json:"err,omitempty"`
 	Status  string     `json:"status_after,omitempty"`
@@ -403,7 +412,11 @@ func (x *hist) votes(vs [][2]int64) {
 	}
 	req := abci.RequestBeginBlock{LastCommitInfo: abci.CommitInfo{Votes: infos}}
 	res := "ROk"
-	p := hx.Try(func() { slashing.BeginBlocker(x.blockCtx(), req, w.slk) })
+	bc, bwrite := x.blockCtx().CacheContext()
+	p := hx.Try(func() { slashing.BeginBlocker(bc, req, w.slk) })
+	if p == "" {
+		bwrite()
+	}
 	if p != "" {
 		res = "RPanic"
 		x.dead = true
@@ -425,7 +438,11 @@ func (x *hist) evidence(es [][3]int64) {
 	}
 	req := abci.RequestBeginBlock{ByzantineValidators: ms}
 	res := "ROk"
-	p := hx.Try(func() { evidence.BeginBlocker(x.blockCtx(), req, appOf(w).EvidenceKeeper) })
+	bc, bwrite := x.blockCtx().CacheContext()
+	p := hx.Try(func() { evidence.BeginBlocker(bc, req, appOf(w).EvidenceKeeper) })
+	if p == "" {
+		bwrite()
+	}
 	if p != "" {
 		res = "RPanic"
 		x.dead = true
@@ -558,7 +575,12 @@ func (x *hist) endBlock() {
 	}
 	w := x.w
 	var ups []abci.ValidatorUpdate
-	p := hx.Try(func() { ups = staking.EndBlocker(x.blockCtx(), w.sk) })
+	// a panic in EndBlock stops the node before anything is committed: run on a cache
+	ec, ewrite := x.blockCtx().CacheContext()
+	p := hx.Try(func() { ups = staking.EndBlocker(ec, w.sk) })
+	if p == "" {
+		ewrite()
+	}
 	if p != "" {
 		x.dead = true
 		x.record("OEndBlock", jop{Op: "endblock", Err: p}, "RPanic", "(Some ([], false, "+pairs(x.setPairs())+"))")
@@ -621,7 +643,7 @@ func main() {
 	app := hx.NewApp()
 	theApp = app
 	base := hx.Ctx(app, 10, 1700000000)
-	w := &world{sk: app.CustomStakingKeeper, slk: app.CustomSlashingKeeper, valID: map[string]int{}, consID: map[string]int{}}
+	w := &world{app: app, sk: app.CustomStakingKeeper, slk: app.CustomSlashingKeeper, valID: map[string]int{}, consID: map[string]int{}}
 
 	// validator addresses (genesis validator + candidates), ids in byte order = store order
 	gen := w.sk.GetValidatorSet(base)
@@ -664,18 +686,7 @@ func main() {
 	newHist := func(cfg int) *hist {
 		c, _ := base.CacheContext()
 		cf := configs[cfg]
-		gk := app.CustomGovKeeper
-		props := gk.GetNetworkProperties(c)
-		props.MischanceConfidence = cf.MC
-		props.MaxMischance = cf.MaxM
-		props.MischanceRankDecreaseAmount = cf.RankDec
-		props.InactiveRankDecreasePercent = sdk.NewDecWithPrec(cf.PctPrec2, 2)
-		props.MinValidators = cf.MinVals
-		props.DowntimeInactiveDuration = cf.Downtime
-		props.UnjailMaxTime = cf.Unjail
-		if err := gk.SetNetworkProperties(c, props); err != nil {
-			panic(err)
-		}
+		setProps(app, c, cf)
 		vs := tmtypes.NewValidatorSet([]*tmtypes.Validator{tmtypes.NewValidator(mustTm(w.keys[genID]), 1)})
 		return &hist{w: w, cfg: cfg, ctx: c, h: H0, t: T0, valset: vs, prev: initSnap, dist: dist, signers: true}
 	}
@@ -750,6 +761,23 @@ func main() {
 		"owner_messages_signed_by_validator_address": signersOK, "genesis_validator_id": genID})
 	fmt.Fprintf(os.Stderr, "c05: %d histories, %d operations\n", len(js), nops)
 }
+
+func setProps(app *simapp.SekaiApp, c sdk.Context, cf config) {
+	gk := app.CustomGovKeeper
+	props := gk.GetNetworkProperties(c)
+	props.MischanceConfidence = cf.MC
+	props.MaxMischance = cf.MaxM
+	props.MischanceRankDecreaseAmount = cf.RankDec
+	props.InactiveRankDecreasePercent = sdk.NewDecWithPrec(cf.PctPrec2, 2)
+	props.MinValidators = cf.MinVals
+	props.DowntimeInactiveDuration = cf.Downtime
+	props.UnjailMaxTime = cf.Unjail
+	if err := gk.SetNetworkProperties(c, props); err != nil {
+		panic(err)
+	}
+}
+
+func jsonMarshal(v interface{}) ([]byte, error) { return json.Marshal(v) }
 
 func kindClass(k string) string {
 	if strings.HasPrefix(k, "witness:") {
